@@ -7,23 +7,27 @@ sys.path.insert(0, os.path.join(os.path.dirname(os.path.abspath(__file__)), ".."
 from vcheck import *
 
 P = "Cppcms.C09.Props."
-OBLIGATIONS = [
+TABLE_OBLIGATIONS = [
     (P + "discipline_ok", "generated access table: writes under the exclusive lock (lru/container.lru: shared lock + lru_mutex), reads under at least the shared lock"),
     (P + "race_free", "generated access table: two conflicting accesses are never made under guard sets two threads can hold at once"),
+    (P + "lock_order", "generated skeletons: access_lock requested only with nothing held, lru_mutex only while holding access_lock, nothing held at the end"),
     (P + "no_nested_locking", "no virtual method calls another locking method while holding a guard"),
     (P + "hooks_at_linearization_points", "the hook calls in the source sit at the model's linearisation points"),
     (P + "process_variant_same", "mem_cache<process_settings> has the same lock table"),
+]
+MODEL_OBLIGATIONS = [
     (P + "linearizable", "every schedule of every thread programs: the hook order is a linearization (Spec.LinearizedBy) and the final state equals the sequential run, LRU order included"),
     (P + "history_linearizable", "corollary: the observable history of every run is linearizable (Herlihy-Wing) w.r.t. the sequential cache of C07"),
     (P + "judge_is_predicate", "the executable judge used on recorded histories = Spec.LinearizedBy"),
     (P + "history_well_formed", "operation ids of a run's history are unique"),
+    (P + "no_undefined_result", "no operation returns through a dangling iterator / without result"),
     (P + "fetch_hit_is_latest_store", "a completed fetch that hit returned value/triggers/deadline/generation of one store of that key, not followed in the linearization by any invalidating operation (no torn value, no value of another key)"),
     (P + "no_value_after_trigger_rise", "a hit never returns a value stored (completed) before a rise of one of its triggers began, if that rise completed before the fetch began"),
     (P + "deadlock_free", "reachable, not everything finished => some thread can move"),
     (P + "step_decreases_measure", "every effective step decreases a natural-number measure"),
     (P + "every_op_completes", "from every reachable configuration: some schedule completes every operation; and every maximal run has completed all of them"),
-    (P + "lock_order", "a thread acquires lru_mutex only while holding access_lock shared and never waits for access_lock while holding a lock"),
 ]
+OBLIGATIONS = TABLE_OBLIGATIONS + MODEL_OBLIGATIONS
 
 KEYS = ["6b30", "6b31", "6b32", "6b33", "6b34", "6b35"]          # k0..k5
 TRIGS = ["7430", "7431", "7432"]                                   # t0..t2
@@ -268,6 +272,35 @@ def run_cases(c, hbin, model, cases, label, env=None, flags=None, judge=True, ti
     return histories
 
 
+DIAG = """import Cppcms.C09.Model
+open Cppcms Cppcms.C09
+def bad : List (Method × Access) := allMethods.flatMap fun m => ((Gen.accesses m).filter fun a => !a.ok).map fun a => (m, a)
+def racy : List (Method × Access × Method × Access) := allMethods.flatMap fun m1 => allMethods.flatMap fun m2 =>
+  (Gen.accesses m1).flatMap fun a1 => ((Gen.accesses m2).filter fun a2 =>
+    a1.field == a2.field && (a1.write || a2.write) && !mutuallyExcluded a1.held a2.held).map fun a2 => (m1, a1, m2, a2)
+#eval IO.println s!"discipline_ok: {if bad.isEmpty then "holds" else "FALSE"} {repr bad}"
+#eval IO.println s!"race_free: {if racy.isEmpty then "holds" else "FALSE"} {repr (racy.take 4)}"
+#eval IO.println s!"hooks_at_linearization_points: {if Gen.hooks == linPoints then "holds" else "FALSE"} {repr Gen.hooks}"
+#eval IO.println s!"no_nested_locking: {if Gen.nested.all (fun x => x.2.2.isEmpty) then "holds" else "FALSE"}"
+#eval IO.println s!"process_variant_same: {Gen.processVariantSame}"
+#eval IO.println s!"prog: {repr (allMethods.map fun m => (m, Gen.prog m))}"
+"""
+
+
+def table_diagnostics(c):
+    """which rule of the generated table is false now (readable detail for the replay file)"""
+    probe = os.path.join(c.scratch, "table_diag.lean")
+    open(probe, "w").write(DIAG)
+    c.lake_build(["Cppcms.C09.Model"], what="model (for table diagnostics)")
+    rc, out = sh(["lake", "env", "lean", probe], cwd=LEAN, timeout=600)
+    lines = [re.sub(r"\s+", " ", l)[:1500] for l in out.splitlines() if l.strip()]
+    c.extra_cov["table_diagnostics"] = lines
+    for l in lines:
+        if "FALSE" in l:
+            c.log("table: " + l[:400])
+    return lines
+
+
 def corpus_cases():
     res = []
     for f in sorted(glob.glob(os.path.join(ROOT, "gen", "corpus", "C09", "*.case"))):
@@ -298,9 +331,19 @@ def main():
                       "finite thread programs (every_op_completes); lock acquisition is not assumed fair"]
 
     c.translate("c09.py", BUILD)
-    proved = c.prove(["Cppcms.C09.Props"], OBLIGATIONS, exe="c09_model")
+    # two modules, proved separately: when the guard structure of the source changes, the table theorems say
+    # which rule became false even though the model proofs (which start from the skeleton's shape) no longer build
+    p1 = c.prove(["Cppcms.C09.TableProps"], TABLE_OBLIGATIONS, exe="c09_model")
+    ob1 = c.obligations
+    p2 = c.prove(["Cppcms.C09.Props"], MODEL_OBLIGATIONS)
+    c.obligations = ob1 + c.obligations
+    proved = len(c.discharged) == len(c.obligations) and not c.broken
+    if not proved:
+        diag = table_diagnostics(c)
+        if c.broken:
+            c.broken[0]["detail"] = "TABLE DIAGNOSTICS: " + " | ".join(diag)[:3000] + "\n" + c.broken[0]["detail"]
     if c.tier == "thorough" and proved:
-        c.leanchecker(["Cppcms.C09.Props"])
+        c.leanchecker(["Cppcms.C09.TableProps", "Cppcms.C09.Props"])
     model = c.model_exe()
     ok_impl = c.impl_build()
     hbin = c.harness("c09") if ok_impl else None
